@@ -24,6 +24,7 @@ func (p *Undefined) WriteTo(w io.Writer) (int64, error) {
 }
 
 func (p *Undefined) UnmarshalBinary(data []byte) error {
-	p.data = data
+	p.data = make([]byte, len(data))
+	copy(p.data, data)
 	return nil
 }
